@@ -4,73 +4,14 @@
 From RV Require Export Sparql.Pushdown.
 Local Open Scope N_scope.
 
-(* ---- expressions that cannot raise and on which rdflib's operators are the
-        specification's: = and != between atoms one of which is an IRI constant,
-        BOUND, and the connectives over them ---- *)
+(* atoms *)
 Definition atom (e : expr) : bool := match e with EVar _ | ECon _ => true | _ => false end.
-Definition iri_const (e : expr) : bool := match e with ECon t => negb (is_lit t) | _ => false end.
-Definition cmp_safe (op : cmpop) (a b : expr) : bool :=
-  match op with
-  | OpEq | OpNe => atom a && atom b && (iri_const a || iri_const b)
-  | _ => false
-  end.
-(* expressions on which rdflib's operators are the specification's (after the
-   repair of the logical-and): everything but EXISTS, comparisons restricted to
-   = and != between atoms one of which is an IRI constant (no literal-kind
-   question, finding F-C04-9).  Errors (unbound variables, EBV of an IRI) are
-   allowed: both evaluators treat them alike. *)
-Fixpoint expr_ok (e : expr) : bool :=
-  match e with
-  | EVar _ | ECon _ | EBound _ => true
-  | ECmp op a b => cmp_safe op a b
-  | EAnd a b | EOr a b => expr_ok a && expr_ok b
-  | ENot a => expr_ok a
-  | EExists _ _ => false
-  end.
 
-Lemma atom_eval ds g m1 full m2 a :
-  atom a = true -> (forall v, In v (evars a) -> lookup v m1 = lookup v m2) ->
-  expr_td ds g m1 full a = expr_bu ds g m2 a
-  /\ (iri_const a = true -> forall t, expr_bu ds g m2 a = Some t -> is_lit t = false).
-Proof.
-  destruct a; try discriminate; intros _ H; cbn.
-  - split; [apply H; now left|discriminate].
-  - split; [reflexivity|]. intros Hh t0 [= <-]. now apply negb_true_iff in Hh.
-Qed.
+Lemma ebv_of_bool b : ebv_of (Some (t_bool b)) = Some b.
+Proof. destruct b; reflexivity. Qed.
 
-Lemma expr_ok_agree ds g full e : forall m1 m2,
-  expr_ok e = true -> (forall v, In v (evars e) -> lookup v m1 = lookup v m2) ->
-  expr_td ds g m1 full e = expr_bu ds g m2 e.
-Proof.
-  induction e; intros m1 m2 S H; cbn in S; try discriminate.
-  - cbn. apply H. now left.
-  - reflexivity.
-  - unfold cmp_safe in S.
-    assert (Sop : (op = OpEq \/ op = OpNe) /\ atom e1 = true /\ atom e2 = true
-                  /\ (iri_const e1 = true \/ iri_const e2 = true)).
-    { destruct op; try discriminate; apply andb_true_iff in S as [S1 S2];
-      apply andb_true_iff in S1 as [S0 S1]; apply orb_true_iff in S2; auto. }
-    destruct Sop as [Sop [A1 [A2 I]]].
-    destruct (atom_eval ds g m1 full m2 e1 A1) as [T1 K1].
-    { intros v Iv. apply H. cbn. apply in_or_app. now left. }
-    destruct (atom_eval ds g m1 full m2 e2 A2) as [T2 K2].
-    { intros v Iv. apply H. cbn. apply in_or_app. now right. }
-    cbn. rewrite T1, T2.
-    destruct (expr_bu ds g m2 e1) as [t1|] eqn:B1; [|reflexivity].
-    destruct (expr_bu ds g m2 e2) as [t2|] eqn:B2; [|reflexivity]. cbn.
-    assert (L : is_lit t1 && is_lit t2 && negb (same_kind t1 t2) = false).
-    { destruct I as [I|I]; [rewrite (K1 I t1 eq_refl)|rewrite (K2 I t2 eq_refl)]; cbn; [reflexivity|].
-      now rewrite andb_false_r. }
-    destruct Sop as [-> | ->]; cbn; rewrite L; reflexivity.
-  - apply andb_true_iff in S as [S1 S2]. cbn.
-    rewrite (IHe1 m1 m2 S1), (IHe2 m1 m2 S2); [reflexivity| |];
-      intros v Iv; apply H; cbn; apply in_or_app; auto.
-  - apply andb_true_iff in S as [S1 S2]. cbn.
-    rewrite (IHe1 m1 m2 S1), (IHe2 m1 m2 S2); [reflexivity| |];
-      intros v Iv; apply H; cbn; apply in_or_app; auto.
-  - cbn. rewrite (IHe m1 m2 S H). reflexivity.
-  - cbn. rewrite (H v); [reflexivity|now left].
-Qed.
+Lemma ebv_bool b : ebv (Some (t_bool b)) = b.
+Proof. destruct b; reflexivity. Qed.
 
 (* ---- restrict / forget ---- *)
 Lemma lookup_restrict f v m : lookup v (restrict f m) = if f v then lookup v m else None.
